@@ -67,12 +67,12 @@ theorem IsTail.follow {tail : Txt} (h : IsTail tail) : Follow tail := by
     rcases ht with ht | ⟨cm, ht⟩
     · left; exact blank_head hg c r (by rw [← ht, hc])
     · cases g with
-      | nil => simp at ht; rw [ht] at hc; simp at hc; right; right; exact hc.1.symm
+      | nil => simp at ht; rw [ht] at hc; simp at hc; right; right; left; exact hc.1.symm
       | cons b g' => left; rw [ht] at hc; simp at hc; rw [← hc.1]; exact hg.cons.1
   · intro c r hc
     rcases (IsTail.skip ⟨g, hg, ht⟩) with h0 | ⟨cm, h0⟩
     · rw [h0] at hc; cases hc
-    · rw [h0] at hc; simp at hc; right; exact hc.1.symm
+    · rw [h0] at hc; simp at hc; right; left; exact hc.1.symm
   · intro r hl
     rcases (IsTail.skip ⟨g, hg, ht⟩) with h0 | ⟨cm, h0⟩ <;> simp [lit, sk_true, h0, dropPrefix] at hl
 
@@ -168,24 +168,31 @@ theorem After.follow {last : Bool} {rest : Txt} (h : After last rest) : Follow r
 
 /-- the text `T` of one rendered operand (without the gap in front of it) is read as `raw`, in the first
     and in the later operand slots, whatever follows (as far as `After last` admits) -/
-structure GoodOp (last : Bool) (T : Txt) (raw : RawOp) : Prop where
+structure GoodOp (last fst : Bool) (T : Txt) (raw : RawOp) : Prop where
   rest : ∀ g rest, Blank g → After last rest →
     ∃ r', operandRest (g ++ (T ++ rest)) = some (raw, r') ∧ skipWs r' = skipWs rest
-  first : ∀ g rest, Blank g → After last rest →
+  /-- only for kinds that may stand in the first operand slot (`fst`) -/
+  first : fst = true → ∀ g rest, Blank g → After last rest →
     ∃ r', operandFirst (g ++ (T ++ rest)) = some (raw, r') ∧ skipWs r' = skipWs rest
   /-- the operand is not mistaken for the shift of the operand in front of it -/
-  noShift : ∀ g rest, Blank g → shiftOp (g ++ (T ++ rest)) = none
+  noShift : ∀ g rest, Blank g → After last rest → shiftOp (g ++ (T ++ rest)) = none
   /-- it starts with a visible character other than `:` and `+` (the line is not read as a label) -/
   head : ∃ c t, T = c :: t ∧ isWs c = false ∧ c ≠ 58 ∧ c ≠ 43
 
-theorem GoodOp.weaken {T : Txt} {raw : RawOp} (h : GoodOp false T raw) : GoodOp true T raw :=
+theorem GoodOp.weaken {fst : Bool} {T : Txt} {raw : RawOp} (h : GoodOp false fst T raw) : GoodOp true fst T raw :=
   ⟨fun g rest hg ha => h.rest g rest hg (IsTail.follow ha),
-   fun g rest hg ha => h.first g rest hg (IsTail.follow ha), h.noShift, h.head⟩
+   fun hf g rest hg ha => h.first hf g rest hg (IsTail.follow ha),
+   fun g rest hg ha => h.noShift g rest hg (IsTail.follow ha), h.head⟩
 
-theorem GoodOp.any {T : Txt} {raw : RawOp} (h : GoodOp false T raw) (last : Bool) : GoodOp last T raw := by
+theorem GoodOp.any {fst : Bool} {T : Txt} {raw : RawOp} (h : GoodOp false fst T raw) (last : Bool) :
+    GoodOp last fst T raw := by
   cases last with
   | true => exact h.weaken
   | false => exact h
+
+theorem GoodOp.notFirst {last fst : Bool} {T : Txt} {raw : RawOp} (h : GoodOp last fst T raw) :
+    GoodOp last false T raw :=
+  ⟨h.rest, fun hf => Bool.noConfusion hf, h.noShift, h.head⟩
 
 /-- one later operand: gap, comma, gap, text -/
 structure Slot where
@@ -198,7 +205,7 @@ structure Slot where
     to be last -/
 def SlotsOk : List Slot → Prop
   | [] => True
-  | x :: xs => Blank x.g1 ∧ Blank x.g2 ∧ GoodOp xs.isEmpty x.text x.raw ∧ SlotsOk xs
+  | x :: xs => Blank x.g1 ∧ Blank x.g2 ∧ GoodOp xs.isEmpty false x.text x.raw ∧ SlotsOk xs
 
 def restText : List Slot → Txt → Txt
   | [], tail => tail
@@ -206,10 +213,14 @@ def restText : List Slot → Txt → Txt
 
 theorem follow_restText (xs : List Slot) (tail : Txt) (hx : SlotsOk xs) (ht : IsTail tail) :
     Follow (restText xs tail) := by
-  cases xs with
+  induction xs with
   | nil => exact ht.follow
-  | cons x xs =>
-    have ⟨h1, h2, hgood, _⟩ := hx
+  | cons x xs ih =>
+    have ⟨h1, h2, hgood, hrest⟩ := hx
+    have hafter : After xs.isEmpty (restText xs tail) := by
+      cases xs with
+      | nil => exact ht
+      | cons y ys => exact ih hrest
     have hsk : skipWs (restText (x :: xs) tail) = 44 :: (x.g2 ++ (x.text ++ restText xs tail)) := by
       simp only [restText]; rw [skipWs_blank_append _ _ h1, skipWs_cons 44 _ (by decide)]
     refine ⟨?_, ?_, ?_⟩
@@ -224,7 +235,7 @@ theorem follow_restText (xs : List Slot) (tail : Txt) (hx : SlotsOk xs) (ht : Is
       simp only [lit, sk_true, hsk, dropPrefix] at hl
       simp at hl
       rw [← hl]
-      exact hgood.noShift x.g2 _ h2
+      exact hgood.noShift x.g2 _ h2 hafter
 
 /-- what follows the operand in front of `xs` is admissible for it -/
 theorem after_restText (xs : List Slot) (tail : Txt) (hx : SlotsOk xs) (ht : IsTail tail) :
@@ -419,7 +430,7 @@ theorem mnem_not_ws (c : Nat) (h : isMnemC c = true) : isWs c = false := by
   simp only [isMnemC, isAlnumC, isAlphaC, isDigitC, A64.mnemonicExtra, isWs] at *; simp at *; omega
 
 theorem isTail_stops (p : Nat → Bool) (tail : Txt) (h : IsTail tail)
-    (hp : p 32 = false ∧ p 9 = false ∧ p 44 = false ∧ p 47 = false) : StopsAt p tail :=
+    (hp : p 32 = false ∧ p 9 = false ∧ p 44 = false ∧ p 47 = false ∧ p 93 = false) : StopsAt p tail :=
   h.follow.stops p tail hp
 
 theorem operandSlots_pred : A64.operandSlots - 1 = 4 := by decide
@@ -451,7 +462,7 @@ def firstRaw (first : Option (Txt × Txt × RawOp)) : List RawOp :=
 def FirstOk (first : Option (Txt × Txt × RawOp)) (xs : List Slot) : Prop :=
   match first with
   | none => xs = []
-  | some (g1, T1, raw1) => Blank g1 ∧ g1 ≠ [] ∧ GoodOp xs.isEmpty T1 raw1 ∧ SlotsOk xs
+  | some (g1, T1, raw1) => Blank g1 ∧ g1 ≠ [] ∧ GoodOp xs.isEmpty true T1 raw1 ∧ SlotsOk xs
 
 theorem prod_eta {α β : Type} (p : α × β) : p = (p.1, p.2) := by cases p; rfl
 
@@ -498,7 +509,7 @@ theorem instrP_line (g0 : Txt) (m : Nat) (ms : Txt) (first : Option (Txt × Txt 
   | some f =>
     obtain ⟨g1, T1, raw1⟩ := f
     obtain ⟨hb, _, hgood, hxs⟩ := hfirst
-    obtain ⟨r1, hr1, hsk1⟩ := hgood.first g1 (restText xs t.text) hb (after_restText xs t.text hxs htail)
+    obtain ⟨r1, hr1, hsk1⟩ := hgood.first rfl g1 (restText xs t.text) hb (after_restText xs t.text hxs htail)
     have hops := restSlots_ops xs t.text 4 hlen hxs htail
     have hc := restSlots_congr 4 r1 (restText xs t.text) hsk1
     have hce := comment_end t ht (restSlots 4 r1).2 (by rw [hc.2, hops.2])
